@@ -4,7 +4,9 @@ from lib.engine import Family
 from lib.gen import *
 from lib.apigen import *
 
-THEOREMS = ["xor_keystream_involutive", "cryptex_adjust_restore", "protect_unprotect_roundtrip"]
+THEOREMS = ["cipher_encrypt_involutive", "protect_emits_rtp_wire", "key_selected_nodup", "srtp_round_trip", "srtp_protect_unprotect",
+            "xtn_one_involutive", "xtn_two_involutive", "xtn_apply_outside", "xtn_apply_involutive", "cryptex_adjust_restore_id",
+            "RtpEx.* (vm_compute examples: plain+MKI, RFC 6904, cryptex, four alias combinations)"]
 TRUSTED_BASE = ["Coq 8.16.1 kernel", "tools/gen_constants.py", "extraction (ExtrOcamlBasic) + harness/mdrv.ml",
                 "harness/cdrv*.c driving srtp_protect / srtp_unprotect on libsrtp (ASan/UBSan)",
                 "Gallina AES / SHA-1 / HMAC (FIPS / RFC vectors as Examples) used to run the model",
